@@ -301,6 +301,28 @@ func gpgVerify(key string, sig, data []byte) (bool, string) {
 	return strings.Contains(string(out), "GOODSIG") || strings.Contains(string(out), "VALIDSIG"), string(out)
 }
 
+// gpgVerifyClearsigned: gpg --verify on a clear-signed block (what dpkg-sig itself runs).
+func gpgVerifyClearsigned(key string, block []byte) (bool, string) {
+	dir, err := os.MkdirTemp(scratchBase(), "gpg")
+	if err != nil {
+		return true, ""
+	}
+	defer os.RemoveAll(dir)
+	_ = os.Chmod(dir, 0o700)
+	env := append(os.Environ(), "GNUPGHOME="+dir)
+	imp := exec.Command("gpg", "--batch", "--quiet", "--import", filepath.Join(keysDir(), key+".pub.asc"))
+	imp.Env = env
+	if out, err := imp.CombinedOutput(); err != nil {
+		return true, "gpg import failed: " + string(out)
+	}
+	bp := filepath.Join(dir, "block.asc")
+	_ = os.WriteFile(bp, block, 0o600)
+	v := exec.Command("gpg", "--batch", "--status-fd", "1", "--verify", bp)
+	v.Env = env
+	out, _ := v.CombinedOutput()
+	return strings.Contains(string(out), "GOODSIG") || strings.Contains(string(out), "VALIDSIG"), string(out)
+}
+
 func checkSign(sc *SignCase, useGPG bool) []Violation {
 	var vs vlist
 	f := sc.Format
@@ -392,6 +414,11 @@ func checkSign(sc *SignCase, useGPG bool) []Violation {
 				}
 				if n != 3 {
 					vs.add("C10.dpkg-sig.manifest-lines", f, "manifest has %d file lines, expected 3", n)
+				}
+				if useGPG && haveGPG && !sc.Callback {
+					if ok, out := gpgVerifyClearsigned(key, d.SigMember.Data); !ok {
+						vs.add("C10.dpkg-sig.gpg-rejects", f, "gpg --verify rejects the clear-signed manifest: %s", out)
+					}
 				}
 				return nil
 			}
